@@ -66,23 +66,25 @@ Fixpoint find_upper (fuel : nat) (above : Z -> bool) (bin : list (nat * vec)) (l
 (* items rangeStart <= item < rangeEnd of the bin *)
 Definition slice (bin : list (nat * vec)) (s e : nat) : list (nat * vec) := firstn (e - s) (skipn s bin).
 
+(* comparisons of an item's x with the range ends: v < minx, v > maxx, v > maxx - ax, v < minx + ax *)
+Definition lt_minx (g : vgrid) (px : Z) (r : vrange) (v : Z) : bool := negb (ge_minx (gS g * gS g) px r v).
+Definition gt_maxx (g : vgrid) (px : Z) (r : vrange) (v : Z) : bool := negb (le_maxx (gS g * gS g) px r v).
+Definition gt_maxx_sh (g : vgrid) (px : Z) (r : vrange) (v : Z) : bool := gt_maxx g px r (v + b_ax (g_box g)).
+Definition lt_minx_sh (g : vgrid) (px : Z) (r : vrange) (v : Z) : bool := lt_minx g px r (v - b_ax (g_box g)).
+
 (* the one or two index ranges of one voxel: (rangeStart[k], rangeEnd[k]) for k < numRanges *)
 Definition ranges_ll (g : vgrid) (px : Z) (r : vrange) (bin : list (nat * vec)) : list (nat * nat) :=
-  let S2 := gS g * gS g in
-  let ax := b_ax (g_box g) in
   let n := length bin in
-  let lt_minx (v : Z) := negb (ge_minx S2 px r v) in          (* v < minx *)
-  let gt_maxx (v : Z) := negb (le_maxx S2 px r v) in          (* v > maxx *)
-  let rs0 := find_lower n lt_minx bin 0 n in
-  let re0 := find_upper n gt_maxx bin rs0 n in
+  let rs0 := find_lower n (lt_minx g px r) bin 0 n in
+  let re0 := find_upper n (gt_maxx g px r) bin rs0 n in
   if r_needp r then
     if Nat.ltb 0 rs0 && Nat.ltb re0 n then [(rs0, re0)]                                   (* numRanges = 1 *)
     else if Nat.ltb 0 rs0 then
       (* rangeStart[1] = 0; rangeEnd[1] = min(findUpperBound(maxx - ax, 0, rangeStart[0]), rangeStart[0]) *)
-      [(rs0, re0); (0%nat, Nat.min (find_upper n (fun v => gt_maxx (v + ax)) bin 0 rs0) rs0)]
+      [(rs0, re0); (0%nat, Nat.min (find_upper n (gt_maxx_sh g px r) bin 0 rs0) rs0)]
     else
       (* rangeStart[1] = max(findLowerBound(minx + ax, rangeEnd[0], binSize), rangeEnd[0]); rangeEnd[1] = binSize *)
-      [(rs0, re0); (Nat.max (find_lower n (fun v => lt_minx (v - ax)) bin re0 n) re0, n)]
+      [(rs0, re0); (Nat.max (find_lower n (lt_minx_sh g px r) bin re0 n) re0, n)]
   else [(rs0, re0)].
 
 (* "if (index >= atomIndex) continue; ... if (dSquared > maxDistanceSquared) continue; push_back(index)" *)
